@@ -77,7 +77,8 @@ def acc(ctx, m):
         reg = B.reachable(b)
         # an accepting arm calls a Visitor method (or another deserializer) before any error is built
         accepts = False
-        for bb in excl[b] | {b}:
+        # (everything the arm can reach, not only what it reaches alone: arms may bind a value and share the code that hands it to the visitor)
+        for bb in reg:
             t = B.blocks[bb]['t']
             if t['k'] == 'call':
                 for n in callee_names(t):
